@@ -566,7 +566,7 @@ SYN = {
     'around': 'round', 'round_': 'round', 'rint': 'round',
     'absolute': 'abs', 'fabs': 'abs',
     'amin': 'min', 'amax': 'max',
-    'asarray': 'array', 'asanyarray': 'array',
+    'asarray': 'array', 'asanyarray': 'array', 'ascontiguousarray': 'array', 'average': 'mean',
     'true_divide': 'divide',
     'concatenate': 'concatenate',
     'power': 'pow',
